@@ -138,4 +138,32 @@ def allocObj : Heap → Obj → Heap × HObj
       (h2, (k, .dict kvs') :: r')
     | _ => let (h2, r') := allocObj h r; (h2, (k, .none) :: r')
 
+/-! ### histories over one live object: copies taken at any time, in-place writes in between -/
+
+/-- one step of a copy history: `copy.copy` / `copy.deepcopy` (or the method forms) of the live source
+    object, or an in-place write `arr[...] = d` to any buffer of the heap (of the source, of any copy) -/
+inductive COp
+  | copy (deep : Bool)
+  | write (a : Addr) (d : DS)
+  deriving Repr
+
+structure CState where
+  heap : Heap
+  src : HObj
+  copies : List HObj
+
+def stepC (s : CState) : COp → CState
+  | .copy deep =>
+    let r := copyObj deep s.heap s.src
+    { heap := r.1, src := s.src, copies := s.copies ++ [r.2] }
+  | .write a d => { heap := poke s.heap a d, src := s.src, copies := s.copies }
+
+def runC (s : CState) (ops : List COp) : CState := ops.foldl stepC s
+
+/-- the buffer behind the array-valued field `k` of an object -/
+def fieldRef (o : HObj) (k : String) : Option Addr :=
+  match o.lookup k with
+  | some (.ref a) => some a
+  | _ => none
+
 end StoreCopy
